@@ -141,8 +141,8 @@ CLAIMS['C15'] = dict(engine='rtc (E3)', category='exploration',
          'documented non-interacting / LIMB defaults.',
     note='Catalogue crystals, Nthermo 1..2.')
 
-CLAIMS['C27'] = dict(engine='rtc (E3)', category='exploration',
-    technique='run-time postconditions of Supercell construction and index/position maps against brute-force enumeration of the cell contents; bounded stand-in',
+CLAIMS['C27'] = dict(engine='pyvc (E1: AST -> VCs -> z3) + rtc (E3)', category='exploration',
+    technique='contract of Supercell.equivalencemap (soundness: a returned operation is one of the group and carries the occupation of self onto other, the returned mapping satisfies the reorder relation) discharged by z3 from the extracted source with loop invariants for the search, the occupation buffer and the mapping construction, for every supercell size, group and pair of occupations; run-time postconditions of Supercell construction and index/position maps against brute-force enumeration of the cell contents; bounded stand-in',
     text='Bounded: size = |det| x sites, every lattice site maps to exactly one index and back, translations are a group of permutations, group operations map to site permutations, '
          'including left-handed and non-diagonal supercell matrices and in-place edit histories.',
     note='Catalogue crystals x seeded supercell matrices.')
